@@ -98,8 +98,10 @@ class Libs:
                 "INSERT INTO post (id, title, rating, author_id) VALUES (%s, %s, %s, %s)",
                 [(r["id"], r["title"], r["rating"], r["author_id"]) for r in data["Post"]])
             cur.executemany(
-                "INSERT INTO comment (id, body, post_id, writer_id) VALUES (%s, %s, %s, %s)",
-                [(r["id"], r["body"], r["post_id"], r["writer_id"]) for r in data["Comment"]])
+                "INSERT INTO comment (id, body, post_id, writer_id, reviewer_id) "
+                "VALUES (%s, %s, %s, %s, %s)",
+                [(r["id"], r["body"], r["post_id"], r["writer_id"], r.get("reviewer_id"))
+                 for r in data["Comment"]])
 
 
 class HostQuery:
@@ -180,6 +182,9 @@ class Builder:
         target = L.sm.MODELS[tgt]
         if form == "joinedload":
             return obj.options(L.joinedload(getattr(owner, j["rel"])))
+        if form == "aliased_rel":
+            # the host joins the related entity through an alias of its own
+            return obj.join(getattr(owner, j["rel"]).of_type(L.aliased(target)))
         if form == "rel":
             return obj.join(getattr(owner, j["rel"]))
         if form == "outer_rel":
